@@ -117,6 +117,11 @@ func compare(t *ctree.Tree, m *model.Tree, queries [][]string, probes [][]string
 	// Walk: every key once with its value.
 	got := map[string]int{}
 	dup := false
+	// The path slices handed to the visitor are also RETAINED (as
+	// client.CacheClient.Leaves and the package's own tests do) and re-read after
+	// the walk: each must still name the leaf it was reported for.
+	var kept [][]string
+	var keptKeys []string
 	t.Walk(func(p []string, l *ctree.Leaf, v interface{}) error {
 		k := model.Key(p)
 		if _, ok := got[k]; ok {
@@ -124,8 +129,15 @@ func compare(t *ctree.Tree, m *model.Tree, queries [][]string, probes [][]string
 		}
 		i, _ := v.(int)
 		got[k] = i
+		kept = append(kept, p)
+		keptKeys = append(keptKeys, k)
 		return nil
 	})
+	for i, p := range kept {
+		if model.Key(p) != keptKeys[i] {
+			return &mismatch{"walk-retained-path-changed", fmt.Sprintf("the path slice Walk passed for leaf %v reads %v after the walk finished", model.Unkey(keptKeys[i]), p)}
+		}
+	}
 	want := map[string]int{}
 	for k, v := range m.M {
 		want[k] = v.(int)
@@ -135,10 +147,18 @@ func compare(t *ctree.Tree, m *model.Tree, queries [][]string, probes [][]string
 	}
 	// WalkSorted: lexicographic order of element lists.
 	var order [][]string
+	kept, keptKeys = nil, nil
 	t.WalkSorted(func(p []string, l *ctree.Leaf, v interface{}) error {
 		order = append(order, append([]string{}, p...))
+		kept = append(kept, p)
+		keptKeys = append(keptKeys, model.Key(p))
 		return nil
 	})
+	for i, p := range kept {
+		if model.Key(p) != keptKeys[i] {
+			return &mismatch{"walk-retained-path-changed", fmt.Sprintf("the path slice WalkSorted passed for leaf %v reads %v after the walk finished", model.Unkey(keptKeys[i]), p)}
+		}
+	}
 	wk := m.Keys()
 	if len(order) != len(wk) {
 		return &mismatch{"sorted", fmt.Sprintf("WalkSorted reports %v, model %v", order, wk)}
@@ -367,6 +387,9 @@ func body(r *vlib.Run) {
 	r.ForTrials("random", r.N(6000, 250000), func(trial int, rng *rand.Rand) {
 		n := 10 + rng.Intn(71)
 		depth := 2 + rng.Intn(3)
+		if trial%5 == 0 {
+			depth = 5 + rng.Intn(4) // deep trees: long parent paths with several sibling leaves
+		}
 		ops := make([]op, n)
 		for i := range ops {
 			switch x := rng.Intn(10); {
